@@ -32,10 +32,12 @@ use virtio_drivers::Error;
 pub struct Case {
     pub d: Drv, pub offered: u64, pub p: Params, pub cfg: Vec<u8>, pub gens: Vec<u32>, pub qs: HashMap<u16, QScript>,
     pub legacy: bool, pub default_max: u32, pub fail_alloc: Option<usize>,
+    /// the device was left live by a previous owner with this status and resets late (one stale status read)
+    pub stale: Option<u32>,
 }
 impl Case {
     pub fn plain(ctx: &mut Ctx, d: Drv, offered: u64) -> Case {
-        Case { d, offered, p: Params::default(), cfg: d.config(&mut ctx.rng), gens: vec![], qs: HashMap::new(), legacy: false, default_max: 256, fail_alloc: None }
+        Case { d, offered, p: Params::default(), cfg: d.config(&mut ctx.rng), gens: vec![], qs: HashMap::new(), legacy: false, default_max: 256, fail_alloc: None, stale: None }
     }
 }
 
@@ -93,6 +95,7 @@ pub fn model_case(ctx: &mut Ctx, c: &Case) -> Option<(Box<Built<HookT<ModelTrans
     hal::fail_alloc_at(c.fail_alloc);
     let mut st = TState::new(c.d.device_type(), c.offered, c.d.nqueues(), c.default_max);
     st.legacy = c.legacy; st.config = c.cfg.clone();
+    if let Some(v) = c.stale { st.status = v; st.slow_reset = 1; ctx.tr.note("model_slow_reset"); }
     let (mt, _tst) = ModelTransport::new(st);
     let (ht, dev) = HookT::new(mt);
     { let mut d = dev.borrow_mut(); d.q = c.qs.clone(); d.gens = c.gens.iter().copied().collect(); }
@@ -352,6 +355,7 @@ fn varied_case(ctx: &mut Ctx, d: Drv) -> Case {
     if d == Drv::P9 && ctx.rng.chance(1, 2) {
         match ctx.rng.below(4) { 0 => { c.cfg = vec![0, 0, b'x']; } 1 => { c.cfg = vec![3, 0, 0xff, 0xfe, b'a']; } 2 => { c.cfg = vec![200, 0, b'a', b'b']; } _ => { c.cfg = vec![4, 0, 0xe2, 0x82, 0xac, b'!']; } }
     }
+    if ctx.rng.chance(1, 5) { c.stale = Some(*ctx.rng.pick(&[0x0fu32, 0x0b, 0x03, 0x4f, 0x8f, 0xff])); }
     if ctx.rng.chance(1, 6) { c.fail_alloc = Some(ctx.rng.below(2 * d.nqueues() as u64 + 1) as usize); }
     c
 }
@@ -388,6 +392,8 @@ pub fn run(ctx: &mut Ctx) {
         ctx.tr.scenario(&format!("c08-model-{}", d.name()));
         let words = directed_words(d);
         for w in &words { let c = Case::plain(ctx, d, *w); if let Some((b, _)) = model_case(ctx, &c) { drop_built(b); } }
+        // a device left live by a previous owner whose reset completes late (nothing may depend on what the status reads back)
+        for st in [0x0fu32, 0x0b, 0x8f] { let mut c = Case::plain(ctx, d, u64::MAX); c.stale = Some(st); if let Some((b, _)) = model_case(ctx, &c) { drop_built(b); } }
         let n = ctx.budget(40, 25);
         for _ in 0..n { let w = random_word(ctx, d); let c = Case::plain(ctx, d, w); if let Some((b, _)) = model_case(ctx, &c) { drop_built(b); } }
         // ---- the device suppresses notifications / does not (the pre-posting drivers) ----
